@@ -329,3 +329,55 @@ Fixpoint lexp (m : lexst) (cur : str) (s : str) : list tok * lexst * str :=
 
 Definition noquote (s : str) : bool := forallb (fun c => negb (is_quote c)) s.
 Definition nows (s : str) : str := filter (fun c => negb (is_ws c)) s.
+
+(* ------------------------------------------------------------------ unions: does the identifier constrain every branch? *)
+
+(* the token list seen character by character; a string token is one symbol *)
+Inductive sym := SChar (c : chr) | SStr (s : str).
+
+Fixpoint flatten (ts : list tok) : list sym :=
+  match ts with
+  | [] => []
+  | TOther o :: r => map SChar o ++ flatten r
+  | TStr s :: r => SStr s :: flatten r
+  end.
+
+Definition PIPE : chr := 124.
+
+(* One pass over the symbols.  A path is "constrained" when one of its predicates [ ... ] (at the parenthesis
+   level of the path) contains the string token v, or when it contains a parenthesised group all of whose union
+   branches are constrained.  stack: the (all, cur) of the enclosing parenthesis levels; all = every finished
+   branch of this level is constrained; cur = the branch being read is constrained; bd = depth inside [ ].
+   Inside a predicate nothing but brackets and string tokens is looked at. *)
+Fixpoint cov (v : str) (l : list sym) (stack : list (bool * bool)) (all cur : bool) (bd : nat) : bool :=
+  match l with
+  | [] => match stack with [] => all && cur | _ => false end
+  | SStr s :: r =>
+      match bd with
+      | O => cov v r stack all cur bd
+      | S _ => cov v r stack all (cur || str_eqb s v) bd
+      end
+  | SChar c :: r =>
+      match bd with
+      | S k => if c =? LBRA then cov v r stack all cur (S bd)
+               else if c =? RBRA then cov v r stack all cur k
+               else cov v r stack all cur bd
+      | O => if c =? LBRA then cov v r stack all cur 1
+             else if c =? LPAR then cov v r ((all, cur) :: stack) true false 0
+             else if c =? RPAR then
+               match stack with
+               | (all', cur') :: st => cov v r st all' (cur' || (all && cur)) 0
+               | [] => false
+               end
+             else if c =? PIPE then cov v r stack (all && cur) false 0
+             else cov v r stack all cur 0
+      end
+  end.
+
+(* every node the query can select is constrained by a predicate on the identifier *)
+Definition covered (v : str) (ts : list tok) : bool := cov v (flatten ts) [] true false 0.
+
+(* characters that are neither quotes nor [ ] ( ) | : the text of location steps and attribute names *)
+Definition plainc (c : chr) : bool :=
+  negb (is_quote c || (c =? LBRA) || (c =? RBRA) || (c =? LPAR) || (c =? RPAR) || (c =? PIPE)).
+Definition plainb (s : str) : bool := forallb plainc s.
